@@ -937,7 +937,7 @@ theorem open_check_complete (g γ h : F) (β : List F) (ts : List Term) (nv s D 
       ((polyWf_iff _).2 h1) ((polyVarsBelow_iff nvp _).2 h2) ((polyWf_iff _).2 h3)
       ((polyVarsBelow_iff nvr _).2 h4) h5 ho
     unfold check
-    rw [hacc]
+    rw [if_neg (by simp only [wfVK]; omega), hacc]
     simp only [evalMV_nil, sub_zero, zero_add, hd]
     have : ¬ (π.w.length > (wfVK g γ h β nv s D).betaH.length ∨ π.w.length > z.length) := by
       simp only [wfVK, List.length_map, hwl]; omega
@@ -1018,20 +1018,37 @@ theorem defectCombined_shift (vk : VK F) (C V dC dV : F) (z : List F) (π : Proo
 
 theorem check_eq_decide (vk : VK F) (cs z vs : List F) (π : Proof F) (ξs : List F)
     (a : F × F × List F) (hacc : accumulate 0 0 cs vs ξs = .ok a)
+    (hnv : π.w.length = vk.numVars)
     (hlen : π.w.length ≤ vk.betaH.length ∧ π.w.length ≤ z.length) :
     check vk cs z vs π ξs = .ok (decide (defect vk cs z vs π ξs = 0)) := by
   unfold check defect
-  rw [hacc]
+  rw [if_neg (not_not.mpr hnv), hacc]
   simp only
   rw [if_neg (by omega)]
 
-/-- **`check` decides exactly `defect = 0`** (whenever it does not abort). -/
+/-- **`check` decides exactly `defect = 0`** (whenever it does not refuse: one witness per key
+variable, key and point long enough). -/
 theorem check_iff_defect (vk : VK F) (cs z vs : List F) (π : Proof F) (ξs : List F)
     (a : F × F × List F) (hacc : accumulate 0 0 cs vs ξs = .ok a)
+    (hnv : π.w.length = vk.numVars)
     (hlen : π.w.length ≤ vk.betaH.length ∧ π.w.length ≤ z.length) :
     check vk cs z vs π ξs = .ok true ↔ defect vk cs z vs π ξs = 0 := by
-  rw [check_eq_decide vk cs z vs π ξs a hacc hlen]
+  rw [check_eq_decide vk cs z vs π ξs a hacc hnv hlen]
   simp
+
+/-- **Shape.** A proof whose witness list has not exactly `num_vars` elements is refused with
+`IncorrectInputLength`, whatever else the claim contains — nothing is squeezed, nothing is paired. -/
+theorem check_wrong_length (vk : VK F) (cs z vs : List F) (π : Proof F) (ξs : List F)
+    (h : π.w.length ≠ vk.numVars) : check vk cs z vs π ξs = .error .incorrectInputLength := by
+  unfold check
+  rw [if_pos h]
+
+/-- whatever `check` answers, the proof had one witness per key variable -/
+theorem check_ok_length (vk : VK F) (cs z vs : List F) (π : Proof F) (ξs : List F) (b : Bool)
+    (h : check vk cs z vs π ξs = .ok b) : π.w.length = vk.numVars := by
+  by_contra hne
+  rw [check_wrong_length vk cs z vs π ξs hne] at h
+  cases h
 
 /-- **One polynomial: the verifier's decision on an arbitrary changed claim.**  With
 `(c, r)` from `commit` and `π` from `open` at `z`, the check of the claim
@@ -1054,7 +1071,9 @@ theorem single_check_eq (g γ h : F) (β : List F) (ts : List Term) (nv s D m nv
     hβ hz ho
   simp only [comms, List.zipWith_cons_cons, List.zipWith_nil_right, List.map_cons, List.map_nil,
     ← hcs] at hcomp
+  have hnv := check_ok_length _ _ _ _ _ _ _ hcomp
   unfold check at hcomp ⊢
+  rw [if_neg (not_not.mpr hnv)] at hcomp ⊢
   simp only [accumulate, zero_add] at hcomp ⊢
   split at hcomp
   · cases hcomp
@@ -1687,8 +1706,14 @@ theorem batchDefect_eq (vk : VK F) (cs : List F) (zs : List (List F)) (vs : List
     batchDefect vk cs zs vs πs rs = .ok (wsum 1 rs (defectsC vk cs zs vs πs)) := by
   obtain ⟨acc', h1, h2⟩ := batchAcc_spec vk vk.numVars cs zs vs πs rs 1
     (0, List.replicate vk.numVars 0, 0, 0) (by simp) hπ hz
+  have hany : πs.any (fun π => decide (π.w.length ≠ vk.numVars)) = false := by
+    rw [List.any_eq_false]
+    intro π hπ'
+    simp [hπ π hπ']
   unfold batchDefect
-  rw [if_neg (by omega), if_neg (by omega), h1]
+  rw [if_neg (by omega), hany]
+  simp only [Bool.false_eq_true, if_false]
+  rw [if_neg (by omega), h1]
   obtain ⟨tc, tw, gm, ggm⟩ := acc'
   simp only [accVal, twSum_replicate_zero] at h2
   simp only
